@@ -149,7 +149,7 @@ impl Sched {
             if PANICS.load(std::sync::atomic::Ordering::SeqCst) > panics0 {
                 match panic_seen_at {
                     None => panic_seen_at = Some(Instant::now()),
-                    Some(t0) if t0.elapsed() > Duration::from_millis(400) => {
+                    Some(t0) if t0.elapsed() > Duration::from_secs(5) => {
                         if g.actors.get(&a).map_or(true, |s| s.arrivals <= seen) {
                             return Arrival::Blocked;
                         }
